@@ -392,7 +392,9 @@ class InternationalizationExtension(Extension):
                     # name so it cannot shadow or leak a template variable
                     plural_expr = parser.free_identifier(token.lineno)
                     variables[token.value] = plural_expr
-                    plural_expr_assignment = nodes.Assign(plural_expr, var)
+                    plural_expr_assignment = nodes.Assign(
+                        plural_expr, var, lineno=token.lineno
+                    )
                 else:
                     plural_expr = var
                 num_called_num = token.value == "num"
